@@ -40,8 +40,8 @@ def coq_ops(ops):
 def gen_case(rng, tier, idx):
     dim = rng.choice([1, 2, 3, 3])
     lg = rng.random() < 0.4
-    maxdepth = 3 if tier == "quick" else 5
-    maxops = 3 if tier == "quick" else 6
+    maxdepth = 3 if tier == "quick" else 4
+    maxops = 3 if tier == "quick" else 5
     kind = rng.choices(["supported", "fn_of_field"], [0.92, 0.08])[0]
     g = X.SxGen(rng, dim=dim, lg=lg, maps=("M",) if lg and rng.random() < 0.5 else (),
                 allow_fn_of_field=(kind == "fn_of_field"), max_order=2)
@@ -94,7 +94,7 @@ def subtrees(j):
 def main(run, replay=None):
     rng = run.rng
     quick = run.tier == "quick"
-    n = 240 if quick else 3000
+    n = 240 if quick else 1600
     proof_ok = run.coq_props()
 
     corpus_f = run.work.parents[1] / "corpus" / "C05.json"
@@ -111,6 +111,8 @@ def main(run, replay=None):
     results = [None] * len(cases)
     for bi, (res, log) in enumerate(outs):
         idxs = list(range(len(cases)))[bi::nb]
+        if res is None:      # killed (memory pressure on a shared machine) or crashed: one retry, alone
+            res, log = run.impl("C05_impl", {"cases": cases[bi::nb]}, timeout=3000)
         if res is None:
             run.report({"kind": "runner-crash"}, "implementation runner crashed", {"log": log[-2000:]},
                        found_input=False, theorem_or_case="C05 runner")
@@ -129,6 +131,8 @@ def main(run, replay=None):
                 terms.append("chk_refused %s %s" % (coq_ops(c["ops"]), X.coq_sx(r["in"])))
                 owners.append((ci, "refused"))
             continue
+        if len(json.dumps(out)) > 60000 or len(json.dumps(r["in"])) > 30000:
+            continue        # expression swell: decided by the numeric oracle only (counted as checker_incomplete)
         if r["in"].get("k") == "mat":
             fin = [e for row in r["in"]["rows"] for e in row]
             fout = [e for row in out["rows"] for e in row] if out.get("k") == "mat" else [out]
@@ -140,23 +144,14 @@ def main(run, replay=None):
             continue
         terms.append("chk %s %s %s" % (coq_ops(c["ops"]), X.coq_sx(r["in"]), X.coq_sx(out)))
         owners.append((ci, "value"))
-    files, index = {}, []
-    per = 60
-    for k in range(0, len(terms), per):
-        name = "cases_C05_%d" % (k // per)
-        files[name] = HEADER + "Eval vm_compute in %s.\n" % coq_list(terms[k:k + per])
-        index.append((name, owners[k:k + per]))
-    coq_out = run.coq_eval_many(files, timeout=1200)
+    vals = run.coq_eval_terms(HEADER, terms, per=40, timeout=600, tag="cases")
     code = {}
-    for name, own in index:
-        rc, out = coq_out[name]
-        vals = run.parse_list_output(out) if rc == 0 else None
-        if vals is None or len(vals) != len(own):
-            run.report({"kind": "cases-file"}, "generated case file did not evaluate", {"file": name, "log": out[-1500:]},
-                       found_input=False, theorem_or_case=name)
-            continue
-        for (ci, what), v in zip(own, vals):
+    for (ci, what), v in zip(owners, vals):
+        if v is not None:
             code[ci] = (what, int(v))
+    for err in getattr(run, "coq_errors", [])[:1]:
+        run.report({"kind": "cases-file"}, "a generated case does not type-check in Coq", {"log": err},
+                   found_input=False, theorem_or_case="cases_C05")
 
     # ---- decide
     stats = {"proved_equal_to_reference": 0, "model_agrees": 0, "model_none": 0, "checker_incomplete": 0,
